@@ -298,6 +298,8 @@ def jobs(tier):
             J.append(dict(harness=('c20', 'h_paulis_containers'), params=dict(N=N, form=form), max_paths=30000, timeout_s=60))
         for kind in ('Pauli', 'PauliList'):
             J.append(dict(harness=('c20', 'h_phase_arith'), params=dict(N=N, kind=kind)))
+        for name in ('as_list_weight', 'list_weight', 'row_weight', 'neg_weight', 'tokenize', 'getitem'):     # read-only accessors leave the operator as described
+            J.append(dict(harness=('c17', 'h_query'), params=dict(N=N, name=name), max_paths=4000))
         for L in (1, 2, 3):
             for kind in ('list', 'poly'):
                 J.append(dict(harness=('c20', 'h_getitem'), params=dict(N=N, L=L, kind=kind)))
